@@ -700,7 +700,7 @@ func c19ColumnValues(data []byte) (cols map[string][]string, err error) {
 func RunC19Shredding(ctx *core.Ctx) {
 	ctx.SetRule(c19Rule)
 	nw := 8
-	total := ctx.Scale(320, 9600)
+	total := ctx.Scale(320, 3200)
 	var wg sync.WaitGroup
 	for w := 0; w < nw; w++ {
 		w := w
@@ -912,7 +912,11 @@ func c19ShredCase(ctx *core.Ctx, r *rand.Rand, p *c19Pending, sample bool) {
 			}
 		}
 		// ---- L1: the columnar VariantReader and conversion through evolved reader schemas
-		c19CheckCursor(ctx, data, want, []int{1, 3, 1000}[r.Intn(3)], wp.name+"->cursor schema="+s.kind, detail)
+		var navTie []*c19NavL2
+		if (strings.HasPrefix(wp.name, "raw-") || wp.name == "columnar-writevalue") && s.kind != "none" {
+			navTie = append(navTie, &c19NavL2{stxt: stxt, p: p}) // the writer shreds exactly the values of `want`
+		}
+		c19CheckCursor(ctx, data, want, []int{1, 3, 1000}[r.Intn(3)], wp.name+"->cursor schema="+s.kind, detail, navTie...)
 		c19CheckEvolved(ctx, data, want, wp.name+" schema="+s.kind, detail)
 		// ---- L2: which leaf column holds what, against the mirror of the shredding writer
 		colValues, err := c19ColumnValues(data)
